@@ -49,6 +49,12 @@ TEXTS = [
     "a = abc-\n   def\nb = \"x-\n  y\"\nc = 2\nEND\n",
     "x = 1\ny = 2\nlong_name = (1, 2, 3)\nz = 3 <m\nw = 4\n",
     "# hash comment\na = 1 # trailing\nb = 2\n",
+    # two-line texts built from lines of equal length, so that the same offsets hold an '=' in
+    # different roles: missing value / complete statement, named / stray
+    "e    =     \nf    = MARS\nEND\n",
+    "e    = 'x' \n     = MARS\nEND\n",
+    "e    = 'x' \nf    = MARS\nEND\n",
+    "e    =     \n     = MARS\nEND\n",
 ]
 
 DEC_CALLS = [["simple", "16#-7F#"], ["simple", "-16#7F#"], ["simple", "3#12#"], ["simple", "23:59:60"],
